@@ -19,6 +19,8 @@ pub type BoxFut = Pin<Box<dyn Future<Output = ()> + Send + 'static>>;
 #[derive(Default)]
 struct Shared {
     queue: Mutex<VecDeque<usize>>,
+    /// every wake call (task id, whether it queued the task), for determinism audits
+    wake_log: Mutex<Vec<(usize, bool)>>,
     spawned: Mutex<Vec<(String, BoxFut)>>,
 }
 
@@ -67,10 +69,18 @@ impl Wake for TaskWake {
         self.wake_by_ref()
     }
     fn wake_by_ref(self: &Arc<Self>) {
-        if !self.queued.swap(true, Ordering::SeqCst) {
+        let fresh = !self.queued.swap(true, Ordering::SeqCst);
+        if fresh {
             self.shared.queue.lock().unwrap().push_back(self.id);
         }
+        if AUDIT.with(|a| a.get()) {
+            self.shared.wake_log.lock().unwrap().push((self.id, fresh));
+        }
     }
+}
+
+thread_local! {
+    static AUDIT: std::cell::Cell<bool> = std::cell::Cell::new(std::env::var("HDMC_DET_AUDIT").is_ok());
 }
 
 pub struct Task {
@@ -308,6 +318,12 @@ impl Sched {
                 Choice::Poll(id) => format!("poll {}#{id}", self.tasks[*id].name),
                 Choice::Env(i) => format!("env {}", self.envs[*i].name),
             };
+            let what = if AUDIT.with(|a| a.get()) {
+                let w = std::mem::take(&mut *self.exec.shared.wake_log.lock().unwrap());
+                format!("{what} [wakes before: {w:?}]")
+            } else {
+                what
+            };
             self.points.push(Point {
                 menu_len: menu.len(),
                 chosen,
@@ -362,6 +378,9 @@ pub struct Execution<O> {
     pub outcome: O,
 }
 
+/// Total number of executions that were run twice and compared (all explorations of this process).
+pub static AUDITS: std::sync::atomic::AtomicU64 = std::sync::atomic::AtomicU64::new(0);
+
 #[derive(Default, Debug, Clone)]
 pub struct ExploreStats {
     pub executions: u64,
@@ -371,6 +390,8 @@ pub struct ExploreStats {
     pub max_runnable: usize,
     pub with_concurrency: u64,
     pub capped: bool,
+    /// executions that were run twice and compared point by point
+    pub audited: u64,
 }
 
 /// Enumerate every schedule with at most `bound` deviations from the default, depth first.
@@ -379,6 +400,7 @@ pub struct ExploreStats {
 pub fn explore<O>(bound: usize, max_executions: u64, mut run: impl FnMut(&[usize]) -> Execution<O>, mut visit: impl FnMut(&[usize], usize, &Execution<O>) -> bool) -> ExploreStats {
     let mut stats = ExploreStats::default();
     stats.by_deviations = vec![0; bound + 1];
+    let audit_every: u64 = std::env::var("HDMC_DET_AUDIT_EVERY").ok().and_then(|s| s.parse().ok()).unwrap_or(if std::env::var("HDMC_DET_AUDIT").is_ok() { 1 } else { 8 });
     // stack of (prefix, deviations used, first index that may deviate)
     let mut stack: Vec<(Vec<usize>, usize)> = vec![(vec![], 0)];
     while let Some((prefix, used)) = stack.pop() {
@@ -395,6 +417,27 @@ pub fn explore<O>(bound: usize, max_executions: u64, mut run: impl FnMut(&[usize
             });
             run(&prefix)
         };
+        // determinism audit: every n-th execution is run a second time under the same prefix and
+        // must offer the same menus and make the same choices at every point; a divergence means
+        // the harness does not own some source of nondeterminism — a machinery error, never a verdict
+        if audit_every > 0 && stats.executions % audit_every == 0 {
+            let ex2 = run(&prefix);
+            stats.audited += 1;
+            AUDITS.fetch_add(1, Ordering::Relaxed);
+            let a: Vec<(usize, &str)> = ex.points.iter().map(|p| (p.menu_len, p.what.as_str())).collect();
+            let b: Vec<(usize, &str)> = ex2.points.iter().map(|p| (p.menu_len, p.what.as_str())).collect();
+            if a != b {
+                let i = a.iter().zip(b.iter()).position(|(x, y)| x != y).unwrap_or(a.len().min(b.len()));
+                eprintln!("determinism audit: prefix {prefix:?} executed twice diverges at point {i} (lengths {} / {}); context {}", a.len(), b.len(), crate::evidence::watchdog::context());
+                for j in i.saturating_sub(8)..(i + 4).min(a.len().max(b.len())) {
+                    eprintln!("  {j}: first {:?} | second {:?}", a.get(j), b.get(j));
+                }
+                println!("MACHINERY-ERROR nondeterministic execution: the same schedule prefix produced different scheduling points (see stderr); nothing this run reports can be trusted");
+                use std::io::Write;
+                let _ = std::io::stdout().flush();
+                std::process::exit(2);
+            }
+        }
         stats.executions += 1;
         stats.by_deviations[used] += 1;
         stats.max_points = stats.max_points.max(ex.points.len());
